@@ -33,6 +33,8 @@ type cLookupd struct {
 	tcp, http string
 	up       bool
 	fault    int // simnet refuse mode currently installed on the TCP address
+	knows    map[string]map[string]bool // channels this lookupd was told about by others (HTTP create) since it started
+	okSince  time.Time                  // up and fault-free since (zero: not)
 }
 
 type cWorld struct {
@@ -49,6 +51,7 @@ type cWorld struct {
 	pub    *V2Client
 	bodyN  int
 	addrs  []string // current configured lookupd tcp addresses
+	cfgSince map[string]time.Time // lookupd tcp address -> configured at nsqd since
 }
 
 func genCCfg(rc *RunCtx) CCfg {
@@ -95,7 +98,7 @@ func genCOps(rc *RunCtx, c CCfg) []Op {
 }
 
 func clusterWorld(rc *RunCtx) {
-	w := &cWorld{rc: rc, topics: map[string]map[string]bool{}, known: map[string]map[string]bool{}}
+	w := &cWorld{rc: rc, topics: map[string]map[string]bool{}, known: map[string]map[string]bool{}, cfgSince: map[string]time.Time{}}
 	var ops []Op
 	if rc.Replay != nil {
 		if err := json.Unmarshal(rc.Replay.Cfg, &w.cfg); err != nil {
@@ -118,6 +121,7 @@ func clusterWorld(rc *RunCtx) {
 			return
 		}
 		w.addrs = append(w.addrs, lk.tcp)
+		w.cfgSince[lk.tcp] = time.Now()
 	}
 	if c.Stub {
 		w.stubAddr = "127.0.0.1:4190"
@@ -191,6 +195,11 @@ func (w *cWorld) startLookupd(lk *cLookupd) bool {
 		return false
 	}
 	lk.l, lk.up = l, true
+	lk.knows = map[string]map[string]bool{} // lookupd keeps no state across restarts
+	lk.okSince = time.Time{}
+	if lk.fault == simnet.RefuseNone {
+		lk.okSince = time.Now()
+	}
 	go l.Main()
 	synctest.Wait()
 	return true
@@ -338,7 +347,21 @@ func (w *cWorld) exec(op Op) {
 		w.bodyN++
 		body := []byte(fmt.Sprintf("m%05d", w.bodyN))
 		_, existed := w.topics[t]
-		healthy := w.healthy()
+		// channels a lookupd knows that nsqd has certainly identified with and can reach:
+		// configured, up and fault-free for more than two heartbeats
+		must := map[string]bool{}
+		for _, lk := range w.lk {
+			cs, cfgd := w.cfgSince[lk.tcp]
+			if !cfgd || !lk.up || lk.fault != simnet.RefuseNone || lk.okSince.IsZero() {
+				continue
+			}
+			if time.Since(cs) < 35*time.Second || time.Since(lk.okSince) < 35*time.Second {
+				continue
+			}
+			for ch := range lk.knows[t] {
+				must[ch] = true
+			}
+		}
 		t0 := time.Now()
 		w.pub.Cmd("PUB "+t, body)
 		f, ok := w.pub.WaitFrame(120*time.Second, isNonMsg)
@@ -351,16 +374,21 @@ func (w *cWorld) exec(op Op) {
 		if !existed {
 			w.topicCreated(t)
 			// first message of a new topic reaches every non-ephemeral channel the lookupds already knew
-			if healthy {
+			if len(must) > 0 {
 				synctest.Wait()
 				doc := w.stats()
-				for ch := range w.known[t] {
+				var chs []string
+				for ch := range must {
+					chs = append(chs, ch)
+				}
+				sort.Strings(chs)
+				for _, ch := range chs {
 					if strings.HasSuffix(ch, "#ephemeral") {
 						continue
 					}
 					sc := doc.channel(t, ch)
 					if sc == nil || sc.MessageCount < 1 {
-						rc.Violate("C16", "channel-not-precreated", "topic %s first published while every lookupd knew channel %s: the channel did not get the first message (%+v)", t, ch, sc)
+						rc.Violate("C16", "channel-not-precreated", "topic %s first published while a healthy, long-connected lookupd knew channel %s: the channel did not get the first message (%+v)", t, ch, sc)
 						return
 					}
 					w.topics[t][ch] = true
@@ -382,6 +410,10 @@ func (w *cWorld) exec(op Op) {
 		}
 		lk := w.lk[int(uint64(op.A)%uint64(len(w.lk)))]
 		lk.fault = int(op.B)
+		lk.okSince = time.Time{}
+		if op.B == simnet.RefuseNone && lk.up {
+			lk.okSince = time.Now()
+		}
 		rc.Net.SetRefuse(lk.tcp, int(op.B))
 		rc.Net.SetRefuse(lk.http, int(op.B))
 		if op.B != simnet.RefuseNone {
@@ -416,7 +448,6 @@ func (w *cWorld) exec(op Op) {
 			time.Sleep(ms(int64(op.A%3) * 500))
 		}
 		w.startLookupd(lk)
-		w.known = map[string]map[string]bool{}
 	case "stubmode":
 		w.stubMode = int(op.A % 8)
 	case "reconfig":
@@ -444,27 +475,31 @@ func (w *cWorld) exec(op Op) {
 			rc.Violate("C16", "reconfig-failed", "%d %v", resp.Status, resp.Err)
 			return
 		}
+		old := w.cfgSince
+		w.cfgSince = map[string]time.Time{}
+		for _, a := range sub {
+			if ts, ok := old[a]; ok {
+				w.cfgSince[a] = ts
+			} else {
+				w.cfgSince[a] = time.Now()
+			}
+		}
 		w.addrs = sub
 		rc.Probe("reconfigs")
 	case "lkcreate":
 		// somebody else tells every lookupd about a channel (admin create)
 		t, ch := w.tname(op.A), w.cname(op.B)
-		all := true
 		for _, lk := range w.lk {
 			if !lk.up || lk.fault != simnet.RefuseNone {
-				all = false
 				continue
 			}
 			r := httpDo(rc, "POST", lk.http, "/channel/create?topic="+url.QueryEscape(t)+"&channel="+url.QueryEscape(ch), nil, nil, nil, 30*time.Second)
-			if r.Status != 200 {
-				all = false
+			if r.Status == 200 {
+				if lk.knows[t] == nil {
+					lk.knows[t] = map[string]bool{}
+				}
+				lk.knows[t][ch] = true
 			}
-		}
-		if all {
-			if w.known[t] == nil {
-				w.known[t] = map[string]bool{}
-			}
-			w.known[t][ch] = true
 		}
 	}
 }
